@@ -4,6 +4,7 @@ C04 (no crash), C05 (metadata), C06 (hash-consing), C07 (annotations), C08 (util
 from __future__ import annotations
 
 import ast
+import re
 
 from .. import guards, opfacts, refs, util
 from ..core import FuncTypes, dotted, enclosing_function, norm, positional_params, walk_no_nested
@@ -1309,34 +1310,122 @@ def c07_new(R):
     tree = R.tree
     m = tree.mod(BASE)
     fn = _new(tree)
-    blk = [st for st in fn.body if isinstance(st, ast.If) and ast.unparse(st.test) == "not skip_child_annotations"]
-    R.need(len(blk) == 1, "Base.__new__: `if not skip_child_annotations` block not found")
-    b = blk[0]
-    txt = ast.unparse(b)
+    # Dataflow, not text: which statements feed the children's summaries into the node's, over which collection, and
+    # under which conditions.
+    #  - the non-eliminatable summary says what must not be rewritten away *below* the node: it is inherited from every
+    #    child unconditionally (also when the node is rebuilt by annotate() with skip_child_annotations, also when it is
+    #    rebuilt by the unpickler);
+    #  - the children's relocatable annotations become annotations of the node (and part of its hash) unless the caller
+    #    says skip_child_annotations - under no other condition.
+    def conds(st):
+        """conditions of the compound statements around `st` inside the function (early returns further up do not
+        count: they end the construction)"""
+        return [re.sub(r"^not \((\w+)\)$", r"not \1", re.sub(r"\s+", " ", f)) for f in guards.holds(st, stop=fn)]
+
+    def feeders(summary):
+        out = []
+        for st in walk_no_nested(fn):
+            tgt = None
+            if isinstance(st, ast.AugAssign) and isinstance(st.op, ast.BitOr) and isinstance(st.target, ast.Name):
+                tgt, val = st.target.id, st.value
+            elif isinstance(st, ast.Assign) and len(st.targets) == 1 and isinstance(st.targets[0], ast.Name):
+                tgt, val = st.targets[0].id, st.value
+            if tgt is None:
+                continue
+            srcs = [x for x in ast.walk(val) if isinstance(x, ast.Attribute) and x.attr == summary and isinstance(x.value, ast.Name)]
+            if not srcs:
+                continue
+            # the variable ranges over b_args: an enclosing for, or a comprehension inside the value
+            ranged = False
+            for x in srcs:
+                v = x.value.id
+                par = getattr(st, "_parent", None)
+                while par is not None and par is not fn:
+                    if isinstance(par, ast.For) and any(isinstance(t, ast.Name) and t.id == v for t in ast.walk(par.target)) and ast.unparse(par.iter) == "b_args":
+                        ranged = True
+                    par = getattr(par, "_parent", None)
+                for c in ast.walk(val):
+                    if isinstance(c, ast.comprehension) and any(isinstance(t, ast.Name) and t.id == v for t in ast.walk(c.target)) and ast.unparse(c.iter) == "b_args" and not c.ifs:
+                        ranged = True
+            out.append((st, tgt, ranged, conds(st)))
+        return out
+
+    une = [f for f in feeders("_uneliminatable_annotations") if f[1] == "uneliminatable_annotations"]
+    R.need(len(une) >= 1, "Base.__new__: no statement feeds the children's _uneliminatable_annotations into the node's")
+    for st, tgt, ranged, facts in une:
+        R.check(
+            ranged and not facts,
+            m,
+            st,
+            "children's non-eliminatable sets are inherited from every child, unconditionally",
+            f"Base.__new__ inherits the children's non-eliminatable annotations "
+            + ("not over b_args" if not ranged else f"only under {facts}")
+            + ": the summary says what no rewrite may remove below this node, whichever way the node was built - after "
+            "ya = (x<NonElim> + 1).annotate(Plain()) (rebuilt with skip_child_annotations) ya ^ ya folded to 0, and a node "
+            "rebuilt by the unpickler must not lose it either",
+            construct="Base.__new__: inheritance of _uneliminatable_annotations" + (f" under [{'; '.join(facts)}]" if facts else ""),
+        )
+    rel = [f for f in feeders("_relocatable_annotations") if f[1] == "relocatable_annotations"]
+    R.need(len(rel) >= 1, "Base.__new__: no statement feeds the children's _relocatable_annotations into the node's")
+    for st, tgt, ranged, facts in rel:
+        R.check(
+            ranged and facts in ([], ["not skip_child_annotations"]),
+            m,
+            st,
+            "children's relocatable sets are inherited unless skip_child_annotations",
+            f"Base.__new__ inherits the children's relocatable annotations "
+            + ("not over b_args" if not ranged else f"only under {facts}")
+            + " - the only sanctioned exception is skip_child_annotations",
+            construct="Base.__new__: inheritance of _relocatable_annotations" + (f" under [{'; '.join(facts)}]" if facts else ""),
+        )
+    merged = [
+        st
+        for st in walk_no_nested(fn)
+        if isinstance(st, ast.Assign)
+        and len(st.targets) == 1
+        and ast.unparse(st.targets[0]) == "annotations"
+        and any(isinstance(x, ast.Name) and x.id == "relocatable_annotations" for x in ast.walk(st.value))
+        and any(isinstance(x, ast.Name) and x.id == "annotations" for x in ast.walk(st.value))
+    ]
     R.check(
-        "uneliminatable_annotations |= a._uneliminatable_annotations" in txt and "relocatable_annotations |= a._relocatable_annotations" in txt
-        and "for a in b_args" in txt,
+        len(merged) == 1 and conds(merged[0]) in ([], ["not skip_child_annotations"]),
         m,
-        b,
-        "children's annotation sets are inherited",
-        "Base.__new__ no longer unions the children's non-eliminatable / relocatable annotation sets into the node's",
-    )
-    R.check(
-        "annotations = tuple(frozenset((*annotations, *relocatable_annotations)))" in txt,
-        m,
-        b,
+        merged[0] if merged else fn,
         "relocatable annotations of children become annotations of the node (and so part of its hash)",
-        "the node's annotations no longer include its children's relocatable annotations",
+        "the node's annotations no longer include its children's relocatable annotations (or only under a further condition)",
+        construct="Base.__new__: annotations completed with the children's relocatable ones",
     )
     # this happens before hashing
-    idx_b = fn.body.index(b)
-    idx_h = next(i for i, st in enumerate(fn.body) if "_calc_hash" in ast.unparse(st))
-    R.check(idx_b < idx_h, m, b, "annotations are completed before the hash is computed", "the hash is computed before child annotations are merged")
+    hashes = [st for st in walk_no_nested(fn) if isinstance(st, ast.Assign) and "_calc_hash" in ast.unparse(st.value)]
+    R.need(len(hashes) >= 1 and merged, "Base.__new__: hash computation not found")
+    R.check(
+        all(getattr(merged[0], "lineno", 0) < getattr(h, "lineno", 0) for h in hashes),
+        m,
+        merged[0],
+        "annotations are completed before the hash is computed",
+        "the hash is computed before child annotations are merged",
+    )
+    # the fast path of make_like builds a node without going through __new__: same obligation
+    ml = util.resolve_locals(tree.func(BASE, "Base.make_like"))
+    for c in walk_no_nested(ml):
+        if isinstance(c, ast.Call) and isinstance(c.func, ast.Attribute) and c.func.attr == "__a_init__":
+            v = next((k.value for k in c.keywords if k.arg == "uneliminatable_annotations"), None)
+            R.check(
+                v is not None and any(isinstance(x, ast.Attribute) and x.attr == "_uneliminatable_annotations" for x in ast.walk(v)),
+                m,
+                c,
+                "make_like's fast path inherits the arguments' non-eliminatable sets",
+                f"Base.make_like initialises a node directly with uneliminatable_annotations=`{norm(v)[:80] if v is not None else None}`, which "
+                f"does not include the arguments' _uneliminatable_annotations: annotate() on an inner node goes through this path and "
+                f"the protection of everything below the node is lost",
+                construct="Base.make_like fast path: uneliminatable_annotations",
+            )
     # classification of own annotations
     for nm, frag in (("uneliminatable_annotations", "not (a.eliminatable or a.relocatable)"), ("relocatable_annotations", "not a.eliminatable and a.relocatable")):
         ds = [st for st in fn.body if isinstance(st, ast.Assign) and ast.unparse(st.targets[0]) == nm]
+        # the first assignment classifies the node's own annotations; later ones may only add to the set
         R.check(
-            len(ds) == 1 and frag in ast.unparse(ds[0].value),
+            len(ds) >= 1 and frag in ast.unparse(ds[0].value) and all(any(isinstance(x, ast.Name) and x.id == nm for x in ast.walk(d.value)) for d in ds[1:]),
             m,
             fn,
             f"{nm} = annotations that are {frag}",
